@@ -653,7 +653,13 @@ func runC07(r *ev.Run) {
 		wg.Wait()
 	}
 	r.Sample(map[string]any{"scripts": len(scripts), "jobs_enumerated": len(jobs), "jobs_selected": len(sel), "example": sel[len(sel)/2].cs})
+	// swarm level: handshakes in progress across p2pkeswarm's housekeeping pass (one case of ~10 s, in one batch, plain pass)
+	if id := "swarm-housekeeping"; c07SwarmHook != nil && !raceEnabled && r.Mine(7777) && r.Want(id) {
+		c07SwarmHook(r, g.Fork(), id)
+	}
 }
+
+var c07SwarmHook func(r *ev.Run, g *rng.R, caseID string)
 
 func slotClass(sl p2pke.VerifSlot) string {
 	if !sl.Occupied {
